@@ -159,30 +159,28 @@ Proof.
 Qed.
 
 (* ---- write_head_block ---- *)
-Lemma GC_write : forall c x p, hdr_ok x -> GC c p -> (p = x \/ parent_of x p \/ hnum x = 0) ->
-  GC (upd c (hnum x) (Some (fst x))) x.
+Lemma del_canon_sub : forall fuel c i c', del_canon_from fuel c i = Some c' ->
+  forall n h, c' n = Some h -> c n = Some h.
 Proof.
-  intros c x p Hx Hc Hcase n Hn. unfold upd. destruct (N.eqb_spec n (hnum x)) as [->|Hne].
-  - symmetry. now apply anc_self.
-  - destruct Hcase as [->|[Hp|H0]]; [apply Hc; auto| |lia].
-    rewrite (anc_parent x p n); auto; [apply Hc|]; destruct Hp as (_ & _ & ?); lia.
+  induction fuel as [|f IH]; intros c i c' H n h Hn; [discriminate|].
+  cbn in H. destruct (c i) eqn:E; [|inversion H; subst; auto].
+  specialize (IH _ _ _ H n h Hn). unfold upd in IH. destruct (n =? i); [discriminate|auto].
 Qed.
 
-Lemma fold_whb_frame : forall l st,
-  let st' := fold_left (write_head_block) l st in
-  known st' = known st /\ rcpt st' = rcpt st /\ avail st' = avail st /\ disk st' = disk st.
-Proof. induction l; intros; cbn; auto. subst st'. cbn. destruct (IHl (write_head_block st a)) as (?&?&?&?). repeat split; etransitivity; eauto. Qed.
-
-Lemma fold_whb_GC : forall l p c0 st, down p l c0 -> hdr_ok p -> GC (canon st) c0 ->
-  GC (canon (fold_left write_head_block (rev l) st)) p.
+Lemma whb_clear_below : forall fuel c x c1, whb_clear fuel c x = Some c1 ->
+  forall n, n <= hnum x -> c1 n = c n.
 Proof.
-  intros l p c0 st Hd. revert st. induction Hd; intros st Hx Hc; cbn; auto.
-  rewrite fold_left_app. cbn. apply GC_write with (p := p); auto.
-  apply IHHd; auto. apply H0.
+  intros fuel c x c1 H n Hn. unfold whb_clear in H. destruct (c (hnum x)) as [old|]; [|now inversion H].
+  destruct (old =? fst x); [now inversion H|]. apply (del_canon_below _ _ _ _ H). lia.
 Qed.
 
+Lemma whb_clear_sub : forall fuel c x c1, whb_clear fuel c x = Some c1 ->
+  forall n h, c1 n = Some h -> c n = Some h.
+Proof.
+  intros fuel c x c1 H n h Hn. unfold whb_clear in H. destruct (c (hnum x)) as [old|]; [|inversion H; subst; auto].
+  destruct (old =? fst x); [inversion H; subst; auto|]. eapply del_canon_sub; eauto.
+Qed.
 
-(* ---- reorg ---- *)
 Definition same_frame (st st' : db) : Prop :=
   known st' = known st /\ rcpt st' = rcpt st /\ avail st' = avail st /\ disk st' = disk st.
 
@@ -191,6 +189,126 @@ Proof. intros; repeat split. Qed.
 Lemma same_frame_trans : forall a b c, same_frame a b -> same_frame b c -> same_frame a c.
 Proof. intros a b c (?&?&?&?) (?&?&?&?). repeat split; etransitivity; eauto. Qed.
 
+Lemma whb_spec : forall fuel st x st', write_head_block fuel st x = Some st' ->
+  exists c1, whb_clear fuel (canon st) x = Some c1 /\
+    canon st' = upd c1 (hnum x) (Some (fst x)) /\ same_frame st st' /\
+    hd_block st' = fst x /\ hd_header st' = fst x /\ hd_snap st' = fst x.
+Proof.
+  intros fuel st x st' H. unfold write_head_block in H.
+  destruct (whb_clear fuel (canon st) x) as [c1|]; [|discriminate]. inversion H; subst.
+  exists c1. repeat split.
+Qed.
+
+Lemma whb_below : forall fuel st x st', write_head_block fuel st x = Some st' ->
+  forall n, n < hnum x -> canon st' n = canon st n.
+Proof.
+  intros fuel st x st' H n Hn. destruct (whb_spec _ _ _ _ H) as (c1 & Hc & -> & _).
+  rewrite upd_other by lia. apply (whb_clear_below _ _ _ _ Hc). lia.
+Qed.
+
+Lemma whb_at : forall fuel st x st', write_head_block fuel st x = Some st' ->
+  canon st' (hnum x) = Some (fst x).
+Proof. intros fuel st x st' H. destruct (whb_spec _ _ _ _ H) as (c1 & _ & -> & _). apply upd_same. Qed.
+
+Lemma whb_sub : forall fuel st x st', write_head_block fuel st x = Some st' ->
+  forall n h, canon st' n = Some h -> (n = hnum x /\ h = fst x) \/ canon st n = Some h.
+Proof.
+  intros fuel st x st' H n h Hn. destruct (whb_spec _ _ _ _ H) as (c1 & Hc & E & _). rewrite E in Hn.
+  unfold upd in Hn. destruct (N.eqb_spec n (hnum x)); [inversion Hn; auto|].
+  right. eapply whb_clear_sub; eauto.
+Qed.
+
+Lemma whb_none : forall fuel st x st', write_head_block fuel st x = Some st' ->
+  forall n, canon st n = None -> n <> hnum x -> canon st' n = None.
+Proof.
+  intros fuel st x st' H n Hn Hne. destruct (canon st' n) as [h|] eqn:E; auto.
+  destruct (whb_sub _ _ _ _ H n h E) as [[? _]|?]; congruence.
+Qed.
+
+Lemma GC_whb : forall fuel st x st' p, write_head_block fuel st x = Some st' -> hdr_ok x ->
+  GC (canon st) p -> (p = x \/ parent_of x p \/ hnum x = 0) -> GC (canon st') x.
+Proof.
+  intros fuel st x st' p H Hx Hc Hcase n Hn. destruct (N.eq_dec n (hnum x)) as [->|Hne].
+  - rewrite (whb_at _ _ _ _ H). symmetry. now apply anc_self.
+  - rewrite (whb_below _ _ _ _ H) by lia.
+    destruct Hcase as [->|[Hp|H0]]; [apply Hc; auto| |lia].
+    rewrite (anc_parent x p n); auto; [apply Hc|]; destruct Hp as (_ & _ & ?); lia.
+Qed.
+
+Lemma whb_term : forall fuel st x, (0 < fuel)%nat ->
+  (forall n, N.of_nat fuel <= n -> canon st n = None) -> write_head_block fuel st x <> None.
+Proof.
+  intros fuel st x Hf Hc. unfold write_head_block, whb_clear.
+  destruct (canon st (hnum x)) as [old|]; [|discriminate].
+  destruct (old =? fst x); [discriminate|].
+  destruct (del_canon_from fuel (canon st) (hnum x + 1)) eqn:E; [discriminate|].
+  exfalso. revert E. apply del_canon_term; auto. intros n Hn. apply Hc. lia.
+Qed.
+
+Lemma fold_whb_cons : forall fuel a l st,
+  fold_whb fuel (a :: l) st =
+  match write_head_block fuel st a with Some s => fold_whb fuel l s | None => None end.
+Proof.
+  intros. unfold fold_whb. cbn [fold_left]. destruct (write_head_block fuel st a); auto.
+  induction l; cbn; auto.
+Qed.
+
+Lemma fold_whb_snoc : forall fuel l a st,
+  fold_whb fuel (l ++ [a]) st =
+  match fold_whb fuel l st with Some s => write_head_block fuel s a | None => None end.
+Proof. intros. unfold fold_whb. now rewrite fold_left_app. Qed.
+
+Lemma fold_whb_frame : forall fuel l st st', fold_whb fuel l st = Some st' -> same_frame st st'.
+Proof.
+  induction l as [|a l IH]; intros st st' H.
+  - inversion H; subst. apply same_frame_refl.
+  - rewrite fold_whb_cons in H. destruct (write_head_block fuel st a) as [s|] eqn:E; [|discriminate].
+    destruct (whb_spec _ _ _ _ E) as (_ & _ & _ & Hf & _). eapply same_frame_trans; eauto.
+Qed.
+
+Lemma fold_whb_GC : forall fuel l p c0 st st', down p l c0 -> hdr_ok p -> GC (canon st) c0 ->
+  fold_whb fuel (rev l) st = Some st' -> GC (canon st') p.
+Proof.
+  intros fuel l p c0 st st' Hd. revert st'. induction Hd; intros st' Hx Hc HF.
+  - inversion HF; subst; auto.
+  - cbn [rev] in HF. rewrite fold_whb_snoc in HF.
+    destruct (fold_whb fuel (rev l) st) as [s|] eqn:E; [|discriminate].
+    eapply GC_whb; eauto. apply IHHd; auto. apply H0.
+Qed.
+
+Lemma fold_whb_none : forall fuel l st st' n, fold_whb fuel l st = Some st' ->
+  canon st n = None -> (forall z, In z l -> hnum z <> n) -> canon st' n = None.
+Proof.
+  induction l as [|a l IH]; intros st st' n H Hn Hl.
+  - now inversion H; subst.
+  - rewrite fold_whb_cons in H. destruct (write_head_block fuel st a) as [s|] eqn:E; [|discriminate].
+    eapply IH; eauto; [|intros; apply Hl; now right].
+    eapply whb_none; eauto. intro. apply (Hl a); [now left|auto].
+Qed.
+
+Lemma fold_whb_sub : forall fuel l st st' n h, fold_whb fuel l st = Some st' ->
+  canon st' n = Some h -> canon st n = Some h \/ exists z, In z l /\ fst z = h.
+Proof.
+  induction l as [|a l IH]; intros st st' n h H Hn.
+  - inversion H; subst; auto.
+  - rewrite fold_whb_cons in H. destruct (write_head_block fuel st a) as [s|] eqn:E; [|discriminate].
+    destruct (IH _ _ _ _ H Hn) as [H1|(z & Hz & Ez)].
+    + destruct (whb_sub _ _ _ _ E n h H1) as [[_ ->]|H2]; auto. right. exists a. split; auto. now left.
+    + right. exists z. split; auto. now right.
+Qed.
+
+Lemma fold_whb_term : forall fuel l st, (0 < fuel)%nat ->
+  (forall n, N.of_nat fuel <= n -> canon st n = None) ->
+  (forall z, In z l -> hnum z < N.of_nat fuel) -> fold_whb fuel l st <> None.
+Proof.
+  induction l as [|a l IH]; intros st Hf Hc Hl; [discriminate|].
+  rewrite fold_whb_cons. destruct (write_head_block fuel st a) as [s|] eqn:E.
+  - apply IH; auto; [|intros; apply Hl; now right].
+    intros n Hn. eapply whb_none; eauto. specialize (Hl a (or_introl eq_refl)). lia.
+  - exfalso. revert E. now apply whb_term.
+Qed.
+
+(* ---- reorg ---- *)
 (* the two walks of reorg, as one statement *)
 Definition reorg_walk (fuel : nat) (st : db) (old new : hdr) : res (hdr * list hdr * list hdr) :=
   match (if hnum new <? hnum old
@@ -247,13 +365,16 @@ Lemma reorg_unfold : forall fuel st old new,
     let removed := map EvRemoved (chunk_logs (map (logs_of st) (rev oc)) []) in
     let nb := rev (tl nc) in
     let added := map EvLogs (chunk_logs (map (logs_of st) nb) []) in
-    let st1 := fold_left write_head_block nb st in
-    let st2 := set_lookup st1 (delete_lookups (lookup st1)
-                  (filter (fun tx => negb (mem tx (hdr_txs nb))) (hdr_txs oc))) in
-    let number := match nc with _ :: x1 :: _ => hnum x1 | _ => hnum c end in
-    match del_canon_from fuel (canon st2) (number + 1) with
+    match fold_whb fuel nb st with
     | None => Err EOutOfFuel
-    | Some c' => Ok (set_canon st2 c', removed ++ added)
+    | Some st1 =>
+      let st2 := set_lookup st1 (delete_lookups (lookup st1)
+                    (filter (fun tx => negb (mem tx (hdr_txs nb))) (hdr_txs oc))) in
+      let number := match nc with _ :: x1 :: _ => hnum x1 | _ => hnum c end in
+      match del_canon_from fuel (canon st2) (number + 1) with
+      | None => Err EOutOfFuel
+      | Some c' => Ok (set_canon st2 c', removed ++ added)
+      end
     end
   end.
 Proof.
@@ -288,27 +409,21 @@ Proof.
   destruct (reorg_walk fuel st old new) as [[[c oc] nc]|] eqn:EW; [|discriminate].
   destruct (reorg_walk_spec _ _ _ _ _ _ _ EW Ho Hn) as (Hdo & Hdn & Hc).
   cbv zeta in H.
-  set (nb := rev (tl nc)) in *.
-  set (st1 := fold_left write_head_block nb st) in *.
+  destruct (fold_whb fuel (rev (tl nc)) st) as [st1|] eqn:EF; [|discriminate].
   match type of H with context [del_canon_from fuel ?cc ?ii] =>
     destruct (del_canon_from fuel cc ii) as [c'|] eqn:ED; [|discriminate] end.
   inversion H; subst st' evs; clear H.
   destruct (reorg_top_spec _ _ _ Hdn Hn) as (Hp & Hcase & Hdp).
-  exists (reorg_top c nc). repeat split; auto.
-  - assert (G1 : GC (canon st1) (reorg_top c nc)).
-    { subst st1 nb. eapply fold_whb_GC; eauto.
-      intros n Hle. rewrite HG by (apply down_hnum in Hdo; lia).
-      eapply down_anc; eauto. }
-    intros n Hle. cbn [canon set_canon].
-    rewrite (del_canon_below _ _ _ _ ED n).
-    + apply G1; auto.
-    + unfold reorg_top in Hle. destruct nc as [|? [|? ?]]; lia.
-  - cbn. apply (fold_whb_frame nb st).
-  - cbn. apply (fold_whb_frame nb st).
-  - cbn. apply (fold_whb_frame nb st).
-  - cbn. apply (fold_whb_frame nb st).
+  exists (reorg_top c nc). repeat split; auto; try (cbn; apply (fold_whb_frame _ _ _ _ EF)).
+  assert (G1 : GC (canon st1) (reorg_top c nc)).
+  { eapply fold_whb_GC; eauto.
+    intros n Hle. rewrite HG by (apply down_hnum in Hdo; lia).
+    eapply down_anc; eauto. }
+  intros n Hle. cbn [canon set_canon].
+  rewrite (del_canon_below _ _ _ _ ED n).
+  + apply G1; auto.
+  + unfold reorg_top in Hle. destruct nc as [|? [|? ?]]; lia.
 Qed.
-
 
 (* ---- events of reorg ---- *)
 Definition removed_logs (evs : list event) : list N :=
@@ -364,6 +479,7 @@ Proof.
   destruct (reorg_walk fuel st old new) as [[[c oc] nc]|] eqn:EW; [|discriminate].
   destruct (reorg_walk_spec _ _ _ _ _ _ _ EW Ho Hn) as (Hdo & Hdn & Hc).
   cbv zeta in H.
+  destruct (fold_whb fuel (rev (tl nc)) st) as [st1|] eqn:EF; [|discriminate].
   match type of H with context [del_canon_from fuel ?cc ?ii] =>
     destruct (del_canon_from fuel cc ii) as [c'|] eqn:ED; [|discriminate] end.
   inversion H; subst st' evs; clear H.
@@ -401,14 +517,6 @@ Proof.
   apply IHdown in Hz. destruct H0 as (_ & _ & ?). lia.
 Qed.
 
-Lemma fold_whb_canon_other : forall l st n, (forall z, In z l -> hnum z <> n) ->
-  canon (fold_left write_head_block l st) n = canon st n.
-Proof.
-  induction l as [|a l IH]; intros st n Hn; cbn; auto.
-  rewrite IH by (intros; apply Hn; now right). cbn. apply upd_other.
-  intro E. apply (Hn a); [now left|auto].
-Qed.
-
 Lemma reorg_terminates : forall fuel st old new, hdr_ok old -> hdr_ok new ->
   (N.to_nat (hnum old) + N.to_nat (hnum new) + 1 < fuel)%nat ->
   (forall n, N.of_nat fuel <= n -> canon st n = None) ->
@@ -427,14 +535,18 @@ Proof.
   destruct (reorg_walk fuel st old new) as [[[c oc] nc]|] eqn:EW; [|congruence].
   destruct (reorg_walk_spec _ _ _ _ _ _ _ EW Ho Hn) as (Hdo & Hdn & Hcc).
   cbv zeta.
+  assert (Hnb : forall z, In z (rev (tl nc)) -> hnum z <= hnum new).
+  { intros z Hz. apply in_rev in Hz.
+    assert (In z nc) by (destruct nc; [destruct Hz | now right]).
+    apply (down_in_hnum _ _ _ Hdn) in H. exact H. }
+  destruct (fold_whb fuel (rev (tl nc)) st) as [st1|] eqn:EF.
+  2:{ exfalso. revert EF. apply fold_whb_term; auto; [lia|]. intros z Hz. specialize (Hnb z Hz). lia. }
   match goal with |- context [del_canon_from fuel ?cc ?ii] =>
     destruct (del_canon_from fuel cc ii) as [c'|] eqn:ED; [discriminate|] end.
   exfalso. revert ED. apply del_canon_term; [lia|].
   intros n Hle. cbn [canon set_lookup].
-  rewrite fold_whb_canon_other; [apply Hc; lia|].
-  intros z Hz. apply in_rev in Hz.
-  assert (In z nc) by (destruct nc; [destruct Hz | now right]).
-  apply (down_in_hnum _ _ _ Hdn) in H. lia.
+  eapply fold_whb_none; eauto; [apply Hc; lia|].
+  intros z Hz. specialize (Hnb z Hz). lia.
 Qed.
 
 End Proofs.
